@@ -156,12 +156,9 @@ Definition ext_absent (c : cert) (o : oid) : Prop := forall e, In e (c_exts c) -
 (* a required extension is absent *)
 Definition ext_missing (r : role) (c : cert) : Prop :=
   exists o, In o (map fst (requirements r c)) /\ ext_absent c o.
-(* some instance of a required extension does not have the required value.  (An issuer
-   alternative name with an empty list of names is kept apart: the implementation accepts it,
-   see C12_iff_refuted_empty_issuer_alt_name.) *)
+(* some instance of a required extension does not have the required value *)
 Definition ext_wrong (r : role) (c : cert) : Prop :=
-  exists o P e, In (o, P) (requirements r c) /\ In e (c_exts c) /\ e_oid e = o /\ ~ P (e_val e) /\
-                e_val e <> DIssuerAltName [].
+  exists o P e, In (o, P) (requirements r c) /\ In e (c_exts c) /\ e_oid e = o /\ ~ P (e_val e).
 Definition has_prohibited (c : cert) : Prop :=
   exists e, In e (c_exts c) /\ In (e_oid e) prohibited_extensions.
 Definition has_unknown_critical (r : role) (c : cert) : Prop :=
@@ -321,22 +318,20 @@ Definition conformant_b (rs : ruleset) (now : Z) (leaf : cert) (reg : list ancho
   existsb (fun a => purpose_eqb (a_purpose a) (anchor_purpose rs) && anchors_b now leaf (a_cert a) &&
                     issuer_chain_rules_b rs leaf (a_cert a)) reg.
 
-(* ---------- domain restrictions under which the implementation meets this specification.
-   Each of them is there because the implementation deviates outside it (see Props/C12.v,
-   the C12_iff_refuted theorems). ---------- *)
+(* ---------- the domain of the equivalence (see Props/C12.v).  [rfc5280_wf] delimits the
+   certificates the property speaks about; [unambiguous_anchor] is there because the
+   implementation deviates outside it (C12_iff_refuted_ambiguous_anchor). ---------- *)
 
 (* RFC 5280 4.2: "A certificate MUST NOT include more than one instance of a particular
-   extension"; 4.2.1.6/7: GeneralNames ::= SEQUENCE SIZE (1..MAX).  x509-cert's decoder checks
-   neither. *)
-Definition rfc5280_wf (c : cert) : Prop :=
-  NoDup (map e_oid (c_exts c)) /\
-  (forall e, In e (c_exts c) -> e_val e <> DIssuerAltName []).
+   extension".  The property text neither requires nor forbids accepting a certificate that
+   repeats an extension, so such certificates are outside the domain: [conformant] asks for
+   exactly one instance, the implementation is content when every instance validates
+   (C12_iff_needs_unique_extensions shows the restriction is needed for the iff as stated). *)
+Definition rfc5280_wf (c : cert) : Prop := NoDup (map e_oid (c_exts c)).
 
 Fixpoint nodup_b (l : list oid) : bool :=
   match l with [] => true | x :: r => negb (oid_in x r) && nodup_b r end.
-Definition rfc5280_wf_b (c : cert) : bool :=
-  nodup_b (map e_oid (c_exts c)) &&
-  forallb (fun e => match e_val e with DIssuerAltName [] => false | _ => true end) (c_exts c).
+Definition rfc5280_wf_b (c : cert) : bool := nodup_b (map e_oid (c_exts c)).
 
 (* the registry entries that anchor the leaf for this rule set *)
 Definition anchoring_entries (rs : ruleset) (now : Z) (leaf : cert) (reg : list anchor) : list anchor :=
